@@ -306,6 +306,11 @@ The block is the 2-tuple `(block, block)`: the routine is defined for 2-D images
 so it is not part of the state.  The state threaded through the rounds is the memory of `y` (the caller's array
 and `y.copy()`), what the name `shuffled` refers to, and the mask array. -/
 
+/-- `pearsonr_probablity` hands the 2-tuple `(block, block)` to `shuffle_blocks`: with an image that is not 2-D the
+first call raises (1-D: `np.swapaxes(mask, 0, 1)` has no axis 1; 3-D and more: `x.shape % block` cannot be broadcast),
+so the routine raises as soon as there is at least one shuffle -/
+def probRaises (shape : List Nat) (n : Nat) : Bool := shape.length != 2 && n != 0
+
 /-- `a[mask]`: the masked pixels in row-major order -/
 def masked (a : Img Rat) (mask : Nat → Nat → Bool) : List Rat :=
   (pixels a.n0 a.n1).filterMap (fun q => if mask q.1 q.2 then some (a.get q.1 q.2) else none)
